@@ -9,7 +9,7 @@
    ([DaFuel] when exceeded).  DoEvaluate of one node is [dsl_do], parametrised by the evaluator
    [ev] used for sub-expressions and callee bodies. *)
 From Coq Require Import ZArith List String Ascii Bool.
-From Icv Require Import Dsl.DslDefs Dsl.DslOps.
+From Icv Require Import Dsl.DslDefs Dsl.DslOps Dsl.DslJson.
 Import ListNotations.
 Local Open Scope string_scope.
 Local Open Scope Z_scope.
@@ -94,10 +94,6 @@ Fixpoint dsl_range_list (fuel : nat) (i stop step : Z) : list dsl_val :=
   | S f => if (if 0 <? step then i <? stop else stop <? i) then DvNum i 0 :: dsl_range_list f (i + step) stop step else []
   end.
 
-(* ---------------------------------------------------------------- Json.encode / Json.decode *)
-Definition dsl_json_encode (st : dsl_store) (v : dsl_val) : dsl_out := (DrAbort DaDomain, st).
-Definition dsl_json_decode (st : dsl_store) (s : string) : dsl_out := (DrAbort DaDomain, st).
-
 (* ---------------------------------------------------------------- typeof, union, intersection, match *)
 (* Value::GetReflectionType *)
 Definition dsl_typeof (v : dsl_val) : dsl_type :=
@@ -123,6 +119,14 @@ Definition dsl_to_arrptr (st : dsl_store) (v : dsl_val) : dsl_aconv :=
    strict weak order: numbers only, or non-empty strings only (as for Array#sort) *)
 Definition dsl_homog (xs : list dsl_val) : bool :=
   forallb dsl_is_num xs || forallb (fun v => dsl_is_str v && negb (dsl_is_empty v)) xs.
+
+(* numbers and non-empty strings only, both kinds present: operator< throws for every pair of unlike kinds, and any
+   comparison sort / std::set insertion / set_intersection over such operands performs at least one unlike comparison
+   (the first element of the other kind is compared with the tree's root; the comparison graph of a sort is connected) *)
+Definition dsl_numstr_only (xs : list dsl_val) : bool :=
+  forallb (fun v => dsl_is_num v || (dsl_is_str v && negb (dsl_is_empty v))) xs.
+Definition dsl_mixed_throws (xs : list dsl_val) : bool :=
+  dsl_numstr_only xs && existsb dsl_is_num xs && existsb dsl_is_str xs.
 
 Definition dsl_vcmp (a b : dsl_val) : comparison :=
   match a, b with
@@ -170,17 +174,18 @@ Fixpoint dsl_isect_args (st : dsl_store) (rest : list dsl_val) (arr1 result : li
   | [] => LrOk result
   | a :: t =>
       match dsl_sorted arr1 with
-      | None => LrAbort DaDomain
+      | None => if dsl_mixed_throws arr1 then LrErr else LrAbort DaDomain
       | Some s1 =>
           match dsl_to_arrptr st a with
           | AcErr => LrErr
           | AcNull => LrOk result
           | AcArr ys =>
               match dsl_sorted ys with
-              | None => LrAbort DaDomain
+              | None => if dsl_mixed_throws ys then LrErr else LrAbort DaDomain
               | Some s2 =>
                   if aliased && Nat.ltb (List.length s1) (List.length s2) then LrAbort DaIsectAlias
-                  else if negb (Nat.eqb (List.length s1) 0) && negb (Nat.eqb (List.length s2) 0) && negb (dsl_homog (s1 ++ s2)) then LrAbort DaDomain
+                  else if negb (Nat.eqb (List.length s1) 0) && negb (Nat.eqb (List.length s2) 0) && negb (dsl_homog (s1 ++ s2)) then
+                    (if dsl_mixed_throws (s1 ++ s2) then LrErr else LrAbort DaDomain)
                   else let r := dsl_set_isect (S (List.length s1 + List.length s2)) s1 s2 in dsl_isect_args st t r r true
               end
           end
@@ -394,6 +399,7 @@ Definition dsl_native_simple (st : dsl_store) (n : dsl_native) (self : dsl_val) 
                          | Some r => dsl_new_arr st (dsl_dedup_sorted st r)
                          | None => (DrAbort DaDomain, st)
                          end
+                       else if dsl_mixed_throws xs then dsl_err DkType st
                        else (DrAbort DaDomain, st)       (* the comparison sequence of the red-black tree decides whether operator< throws *)
                 end
             end)
